@@ -1,6 +1,6 @@
 (* C17/Property.v — property theorems only. *)
-From Coq Require Import String List Bool.
-From Verif Require Import Base.Str C17.Model C17.Spec C17.Proofs C17.Reflect C17.Classes C17.FromDict
+From Coq Require Import String List Bool ZArith.
+From Verif Require Import Base.Str C17.Model C17.Spec C17.Proofs C17.Reflect C17.Classes C17.Typed C17.FromDict
      C17.Tables C17.TableProofs.
 Import ListNotations.
 Open Scope string_scope.
@@ -230,3 +230,66 @@ Theorem c17_eptid_to_only_now :
       = Some [("edupersontargetedid", [LStr "abc"; LStr ""])].
 Proof. exact eptid_to_only_now_holds. Qed.
 Print Assumptions c17_eptid_to_only_now.
+
+(* ---- local values as Python objects (str / bool / int, in a list or alone; strengthening round 2).
+   Outside class 1 and class 4 (the integer 0 among the values, finding C17-F4) and for EVERY
+   converter set, name format and dictionary: each defined attribute goes out under the map's name,
+   name format and friendly name with exactly the lexical forms of its values (the str itself,
+   "true"/"false", the decimal numeral), every AttributeValue typed xs:string / xs:boolean /
+   xs:integer as its value is *)
+Theorem c17_typed_send : forall acs f a, send_cls_py acs f a = 0 -> spec_send_py acs f a (from_local_py acs a f).
+Proof. exact send_py_correct. Qed.
+Print Assumptions c17_typed_send.
+
+Theorem c17_typed_round : forall acs f a allow xml,
+  round_cls_py acs f a = 0 -> (forall m, In m acs -> nf m = f -> map_symmetric m) ->
+  spec_round_py acs f a (roundtrip_py acs a f allow xml).
+Proof. exact round_py_correct. Qed.
+Print Assumptions c17_typed_round.
+
+(* do_ava gives every value its own AttributeValue: type and lexical form, in order — for lists and
+   for single objects, False included; only the integer 0 is excluded *)
+Theorem c17_do_ava_exact : forall v vs,
+  existsb is_zero (given v) = false -> given_texts v = Some vs ->
+  do_ava v = DOk (combine (map xs_type (given v)) vs).
+Proof. exact do_ava_exact. Qed.
+Print Assumptions c17_do_ava_exact.
+
+(* the typed functions are the string-level ones applied to the lexical forms *)
+Theorem c17_typed_is_lexical : forall acs f a a' allow xml,
+  has_zero a = false -> py_scope_b acs f a = true -> givens a = Some a' ->
+  sres_wire (from_local_py acs a f) = from_local acs a' f /\
+  rres_opt (roundtrip_py acs a f allow xml) = roundtrip acs a' f allow xml.
+Proof.
+  exact (fun acs f a a' allow xml Hz Hs Hg =>
+           conj (proj2 (from_local_py_lowered acs f a a' Hz Hs Hg)) (roundtrip_py_lowered acs f a a' allow xml Hz Hs Hg)).
+Qed.
+Print Assumptions c17_typed_is_lexical.
+
+Theorem c17_typed_send_receive : forall m a a' allow xml,
+  has_zero a = false -> py_scope_b [m] (nf m) a = true -> givens a = Some a' ->
+  map_symmetric m -> covered m a' ->
+  roundtrip_py [m] a (nf m) allow xml = ROk (canonical m m a').
+Proof. exact send_receive_py. Qed.
+Print Assumptions c17_typed_send_receive.
+
+Theorem c17_spec_send_py_reflect : forall acs f a out, spec_send_py_b acs f a out = true <-> spec_send_py acs f a out.
+Proof. exact spec_send_py_b_iff. Qed.
+Print Assumptions c17_spec_send_py_reflect.
+
+Theorem c17_spec_round_py_reflect : forall acs f a r, spec_round_py_b acs f a r = true <-> spec_round_py acs f a r.
+Proof. exact spec_round_py_b_iff. Qed.
+Print Assumptions c17_spec_round_py_reflect.
+
+Theorem c17_round_cls_reg_py_open : forall acs f a,
+  round_cls_py acs f a <> 0 -> round_cls_py acs f a <> 4 -> round_cls_reg_py acs f a = round_cls_py acs f a.
+Proof. exact round_cls_reg_py_open. Qed.
+Print Assumptions c17_round_cls_reg_py_open.
+
+(* ---- at full strength the typed clauses are FALSE on the current tree (finding C17-F4): the
+   integer 0 cannot be sent, in a list or alone (do_ava: `elif val or val is False`) *)
+Theorem c17_zero_int_refuted :
+  (exists a, ~ spec_send_py [ZERO_MAP] NAME_FORMAT_URI a (from_local_py [ZERO_MAP] a NAME_FORMAT_URI)) /\
+  (exists a, ~ spec_round_py [ZERO_MAP] NAME_FORMAT_URI a (roundtrip_py [ZERO_MAP] a NAME_FORMAT_URI false true)).
+Proof. exact zero_int_refuted_holds. Qed.
+Print Assumptions c17_zero_int_refuted.
